@@ -45,6 +45,20 @@ impl PDUTransport for SimTransport {
     }
 }
 
+/// the transport towards an entity whose link has stalled: a request never completes, nothing is ever received.
+/// Transactions with that entity cannot get their PDUs out; everybody else must not notice.
+struct StalledTransport;
+
+#[async_trait]
+impl PDUTransport for StalledTransport {
+    async fn request(&mut self, _destination: VariableID, _pdu: PDU) -> Result<(), IoError> {
+        std::future::pending().await
+    }
+    async fn receive(&mut self) -> Result<PDU, IoError> {
+        std::future::pending().await
+    }
+}
+
 /// the native filestore, optionally with a slow scratch-file allocation (a device that has to wake up):
 /// while the receive transaction waits for it, the PDUs routed to it pile up in its command channel
 struct SlowStore {
@@ -140,7 +154,7 @@ fn vid(n: u16) -> VariableID {
     VariableID::from(n)
 }
 
-fn start_node(me: u16, peers: &[u16], base: &Utf8PathBuf, cfg: &Cfg, to_net: UnboundedSender<(u16, VariableID, PDU)>, slow_ms: u64) -> Node {
+fn start_node(me: u16, peers: &[u16], base: &Utf8PathBuf, cfg: &Cfg, to_net: UnboundedSender<(u16, VariableID, PDU)>, slow_ms: u64, stalled_peer: bool) -> Node {
     let root = base.join(format!("e{}", me));
     let _ = std::fs::remove_dir_all(&root);
     std::fs::create_dir_all(&root).unwrap();
@@ -151,6 +165,9 @@ fn start_node(me: u16, peers: &[u16], base: &Utf8PathBuf, cfg: &Cfg, to_net: Unb
     let transport = SimTransport { me, to_net, from_net };
     let mut map: HashMap<Vec<EntityID>, Box<dyn PDUTransport + Send>> = HashMap::new();
     map.insert(peers.iter().map(|p| vid(*p)).collect(), Box::new(transport));
+    if stalled_peer {
+        map.insert(vec![vid(3)], Box::new(StalledTransport));
+    }
     // the configuration of every peer is given explicitly; the default configuration (used for entities that are
     // not listed) has timers of ten minutes, so a transaction that runs with it cannot meet the bounds of the scenario
     let mut per_entity: HashMap<EntityID, EntityConfig> = HashMap::new();
@@ -233,6 +250,8 @@ struct Scenario {
     early_exit: bool,
     /// no link fault loses anything for good: every transaction must succeed, exactly once (C11 others_unaffected)
     isolation: bool,
+    /// both daemons also have a transport towards entity 3, and that link has stalled
+    stalled_peer: bool,
     horizon_s: u64,
     bounded: bool, // the fault plan is "bounded" in the sense of C02
 }
@@ -255,8 +274,8 @@ fn id_repr(id: &TransactionID) -> String {
 async fn run_scenario(out: &mut dyn Write, viol: &mut u64, base: &Utf8PathBuf, sc: Scenario, tag: &str, tally: &mut BTreeMap<&'static str, u64>) {
     let (to_net, mut net_rx): (UnboundedSender<(u16, VariableID, PDU)>, UnboundedReceiver<(u16, VariableID, PDU)>) = unbounded_channel();
     let mut nodes: BTreeMap<u16, Node> = BTreeMap::new();
-    nodes.insert(1, start_node(1, &[2], base, &sc.cfg, to_net.clone(), 0));
-    nodes.insert(2, start_node(2, &[1], base, &sc.cfg, to_net.clone(), sc.slow_ms));
+    nodes.insert(1, start_node(1, &[2], base, &sc.cfg, to_net.clone(), 0, sc.stalled_peer));
+    nodes.insert(2, start_node(2, &[1], base, &sc.cfg, to_net.clone(), sc.slow_ms, sc.stalled_peer));
     let inject: BTreeMap<u16, Sender<PDU>> = nodes.iter().map(|(k, n)| (*k, n.inject_tx.clone())).collect();
     // ---- the link
     let plan = sc.plan.clone();
@@ -432,6 +451,8 @@ async fn run_scenario(out: &mut dyn Write, viol: &mut u64, base: &Utf8PathBuf, s
     let mut outcomes: BTreeMap<(u16, String), Outcome> = BTreeMap::new();
     let mut seen_recv_ids: BTreeMap<u16, BTreeSet<String>> = BTreeMap::new();
     let mut end_ms: BTreeMap<String, u128> = BTreeMap::new();
+    // when the receiving user first saw a successful Finished indication (polled every tick)
+    let mut success_ms: BTreeMap<(u16, String), u128> = BTreeMap::new();
     let horizon = Duration::from_secs(sc.horizon_s);
     let mut elapsed = Duration::ZERO;
     while elapsed < horizon {
@@ -449,6 +470,9 @@ async fn run_scenario(out: &mut dyn Write, viol: &mut u64, base: &Utf8PathBuf, s
                             o.send_finished.push((f.report.condition, f.delivery_code));
                         } else {
                             o.recv_finished.push((f.report.condition, f.delivery_code, f.file_status));
+                            if f.report.condition == Condition::NoError && f.delivery_code == DeliveryCode::Complete {
+                                success_ms.entry((*e, id_repr(&f.id))).or_insert(t0.elapsed().as_millis());
+                            }
                         }
                     }
                     Indication::Report(r) => {
@@ -507,6 +531,16 @@ async fn run_scenario(out: &mut dyn Write, viol: &mut u64, base: &Utf8PathBuf, s
         if recv_success && got.as_deref() != Some(&j.file[..]) {
             *viol += 1;
             oracle(out, "C11", "own_file", &format!("transaction {} reported success but {} holds {:?} bytes instead of its own {} || {}", idr, j.dst, got.as_ref().map(|g| g.len()), j.file.len(), ctx()));
+        }
+        if sc.stalled_peer {
+            // C11: nothing is lost or late between entities 1 and 2 in this scenario, so every transfer is delivered within a few
+            // link delays (10 ms each); the transaction of entity 3 that cannot get its answers out lives for seconds
+            if let Some(t) = success_ms.get(&(j.to, idr.clone())) {
+                if *t > 1000 {
+                    *viol += 1;
+                    oracle(out, "C11", "others_not_delayed", &format!("transaction {} was delivered after {} ms although nothing was lost or late on its link: held up behind the stalled peer's transaction || {}", idr, t, ctx()));
+                }
+            }
         }
         if send_success && !recv_success {
             *viol += 1;
@@ -652,7 +686,12 @@ async fn run_scenario(out: &mut dyn Write, viol: &mut u64, base: &Utf8PathBuf, s
         let mut set: Vec<String> = seen_recv_ids.get(e).map(|s| s.iter().cloned().collect()).unwrap_or_default();
         set.sort();
         let hdrs = delivered.lock().unwrap().get(e).cloned().unwrap_or_default();
-        let peers = if *e == 1 { "2" } else { "1" };
+        let peers = match (*e == 1, sc.stalled_peer) {
+            (true, false) => "2",
+            (false, false) => "1",
+            (true, true) => "2,3",
+            (false, true) => "1,3",
+        };
         rec(out, &format!("daemon route {} {} {}", e, peers, if hdrs.is_empty() { "-".to_string() } else { hdrs.join(",") }), &format!("spawned=[{}]", set.join(",")));
     }
     // the routing key `forward_pdu` used for every PDU it saw (hook trace), against the model's `key`
@@ -783,6 +822,7 @@ pub fn run(opts: &Opts, out: &mut dyn Write) {
             kplan,
             strays: vec![],
             isolation: false,
+            stalled_peer: false,
             slow_ms: 0,
             early_exit: false,
             bounded: true,
@@ -905,6 +945,7 @@ pub fn run(opts: &Opts, out: &mut dyn Write) {
             kplan,
             strays,
             isolation: true,
+            stalled_peer: false,
             slow_ms: 0,
             early_exit: false,
             bounded: true,
@@ -927,10 +968,64 @@ pub fn run(opts: &Opts, out: &mut dyn Write) {
             Job { from: 1, to: 2, mode: if rng.chance(1, 2) { TransmissionMode::Acknowledged } else { TransmissionMode::Unacknowledged }, file: lin(700, 11, 5), src: "short.bin".into(), dst: "short.out".into(), id: None, ghost: false, cmd: JobCmd::None },
         ];
         let tag = format!("c11-burst-{}-seed{}", k, opts.seed);
-        let sc = Scenario { horizon_s: 15, cfg, jobs, plan: BTreeMap::new(), kplan: BTreeMap::new(), strays: vec![], isolation: true, slow_ms: 400, early_exit: true, bounded: true };
+        let sc = Scenario { horizon_s: 15, cfg, jobs, plan: BTreeMap::new(), kplan: BTreeMap::new(), strays: vec![], isolation: true, stalled_peer: false, slow_ms: 400, early_exit: true, bounded: true };
         scenarios += 1;
         {
             let rt = tokio::runtime::Builder::new_multi_thread().worker_threads(4).enable_time().build().unwrap();
+            rt.block_on(run_scenario(out, &mut viol, &base, sc, &tag, &mut tally));
+        }
+    }
+    // ---- C11, a stalled peer: both daemons also talk to entity 3, whose link has stalled (requests never complete).
+    // A transaction of entity 3 is kept busy at one daemon by a burst of replayed EOFs - more than a transaction's
+    // command channel holds - and cannot get a single answer out; the transfers between 1 and 2 must not notice.
+    let n_stall = if opts.thorough { 30 } else { 4 };
+    for k in 0..n_stall {
+        let cfg = gen_cfg(&mut rng);
+        let segu = cfg.seg as usize;
+        let mut jobs = vec![];
+        for i in 0..2 + rng.below(2) as usize {
+            let from = if i == 0 { 1 } else if i == 1 { 2 } else { *rng.pick(&[1u16, 2]) };
+            jobs.push(Job {
+                from,
+                to: 3 - from,
+                mode: if rng.chance(2, 3) { TransmissionMode::Acknowledged } else { TransmissionMode::Unacknowledged },
+                file: lin(*rng.pick(&[1usize, segu, 2 * segu + 3, 6 * segu]), 3 + i as u64, 29 * i as u64 + rng.below(7)),
+                src: format!("src{}.bin", i),
+                dst: format!("dst{}.bin", i),
+                id: None,
+                ghost: false,
+                cmd: JobCmd::None,
+            });
+        }
+        let victim = *rng.pick(&[1u16, 2]);
+        let mode = if rng.chance(3, 4) { TransmissionMode::Acknowledged } else { TransmissionMode::Unacknowledged };
+        let burst = 120 + rng.below(300);
+        let mut strays = vec![];
+        for i in 0..burst {
+            let p = if i % 7 == 3 {
+                mk_pdu(Direction::ToReceiver, mode, 3, 7, victim, PDUPayload::FileData(FileDataPDU::Unsegmented(UnsegmentedFileData { offset: 0, file_data: vec![0x5A; 4] })))
+            } else {
+                mk_pdu(Direction::ToReceiver, mode, 3, 7, victim, PDUPayload::Directive(Operations::EoF(EndOfFile { condition: Condition::NoError, checksum: 0, file_size: 4, fault_location: None })))
+            };
+            strays.push((i / 100, victim, p, None));
+        }
+        let tag = format!("c11-stall-{}-seed{}", k, opts.seed);
+        let sc = Scenario {
+            horizon_s: (cfg.max as u64 + 2) * (cfg.ti + cfg.ta + cfg.tn) as u64 * 3 + 20,
+            cfg,
+            jobs,
+            plan: BTreeMap::new(),
+            kplan: BTreeMap::new(),
+            strays,
+            isolation: true,
+            stalled_peer: true,
+            slow_ms: 0,
+            early_exit: false,
+            bounded: true,
+        };
+        scenarios += 1;
+        {
+            let rt = new_rt();
             rt.block_on(run_scenario(out, &mut viol, &base, sc, &tag, &mut tally));
         }
     }
